@@ -15,7 +15,10 @@ RULE = ('H-COLL: every sequence (ordered, without repetition) of length <= L ove
         '`ro += fresh parse` over the messages in ascending message-ID order; strict: the same exception type propagates '
         'and str(mc) equals the fold stopped there; non-strict: no exception, exactly one MosMergeNonStrictWarning per '
         'failing message, every other mosromgr warning as in the fold, str(mc) equals the fold skipping exactly the '
-        'failing messages. state = running order after each fold step; transition = one message of one sequence.')
+        'failing messages. state = running order after each fold step; transition = one message of one sequence. Second route: '
+        'TLC checks six invariants on every reachable state of tla/CollMerge.tla (N messages of kinds ok/fail/roDelete x '
+        'strict/non-strict) and every reachable model state is replayed against the real MosCollection (applied set, '
+        'completed flag, warning count, propagated exception must agree).')
 
 
 def sequences(names, L):
@@ -154,6 +157,63 @@ def run_collection(ns, ctor, ro_text, texts, strict, tmp, store, order=None, all
     return out
 
 
+def model_worker(ns, items, res, opts):
+    """Conformance: replay every reachable state of the TLA+ model (tla/CollMerge.tla) against the
+    real MosCollection.  A model state (kinds, strict, i, completed, applied, warned, raised) describes
+    the merge after the first i-1 messages: the implementation, given exactly those messages, must
+    show the same applied set, completed flag, warning count and propagated exception."""
+    import warnings as _w
+    from .. import gen, tree
+    prop = opts['prop']
+    g = gen
+    ro_text = coll.base_ro()
+    for st in items:
+        kinds = st['kinds'][:st['i'] - 1]
+        texts = []
+        for j, k in enumerate(kinds, start=1):
+            n = 2000 + 10 * j
+            if k == 'ok':
+                texts.append(g.msg_story_append([g.story_xml(f'S{j}', 0)], msg_id=n))
+            elif k == 'fail':
+                texts.append(g.msg_story_replace(gen.UNKNOWN, [g.story_xml(f'X{j}', 0)], msg_id=n))
+            else:
+                texts.append(g.envelope(f'<roDelete><roID>{g.RO_ID}</roID><marker>{j}</marker></roDelete>', msg_id=n))
+        res.transitions += 1
+        res.extra['model_states_replayed'] += 1
+        res.extra['states'] += 1
+        res.by_class['model:strict=%s' % st['strict']] += 1
+        obs = {'raised': 'none', 'warned': 0, 'applied': (), 'completed': None}
+        try:
+            mc = ns.mc.MosCollection.from_strings([ro_text] + texts, allow_incomplete=True)
+            with _w.catch_warnings(record=True) as w:
+                _w.simplefilter('always')
+                try:
+                    mc.merge(strict=st['strict'])
+                except ns.exc.MosMergeError as e:
+                    obs['raised'] = type(e).__name__
+            obs['warned'] = sum(1 for x in w if x.category is ns.exc.MosMergeNonStrictWarning)
+            v = tree.RoView(str(mc))
+            applied = [j for j, k in enumerate(kinds, start=1) if k == 'ok' and f'S{j}' in v.story_ids]
+            for c in v.root:
+                if c.tag == 'mosromgrmeta':
+                    applied += [int(m.text) for m in c.iter('marker')]
+            obs['applied'] = tuple(sorted(applied))
+            obs['completed'] = bool(mc.completed)
+        except Exception as e:  # noqa
+            obs['raised'] = 'ESCAPED:' + type(e).__name__
+        res.by_outcome['model:' + obs['raised']] += 1
+        want = {'raised': st['raised'], 'warned': st['warned'], 'applied': st['applied'], 'completed': st['completed']}
+        if st['raised'] != 'none' or st['warned'] or st['completed']:
+            res.nontrivial += 1
+        if obs != want:
+            diff = [k for k in want if want[k] != obs[k]]
+            explore.add_simple_finding(res, prop, f"MODEL:strict={st['strict']}:differs-in={'+'.join(diff)}",
+                                       f"TLA+ model state kinds={list(kinds)} strict={st['strict']}: model says {want}, implementation shows {obs}",
+                                       model_state={k: (list(v) if isinstance(v, tuple) else v) for k, v in st.items()}, ro=ro_text, messages=texts)
+        if len(res.samples) < 1 and st['i'] > 3 and st['completed'] and (st['warned'] + opts.get('seed', 0)) % 2 == 1:
+            res.samples.append({'model_state': {k: (list(v) if isinstance(v, tuple) else v) for k, v in st.items()}, 'implementation': obs})
+
+
 def vacuity(tot):
     probs = []
     if not any(k.startswith('strict=False:failed=2') for k in tot.by_class):
@@ -166,13 +226,25 @@ def vacuity(tot):
 def run(tier):
     names = list(coll.pool_messages())
     if tier == 'quick':
-        seqs = list(sequences(names[:9], 3)) + [s for s in sequences(names[:7], 4) if len(s) == 4]
+        seqs = list(sequences(names[:10], 3)) + [s for s in sequences(names[:8], 4) if len(s) == 4]
     else:
-        seqs = list(sequences(names, 4)) + [s for s in sequences(names[:8], 5) if len(s) == 5]
+        seqs = list(sequences(names, 4)) + [s for s in sequences(names[:9], 5) if len(s) == 5]
     parts = [{'label': 'sequences', 'worker': worker, 'items': seqs, 'chunk': 40}]
+    # second route: explicit-state model checking of a TLA+ model with TLC + conformance replay of
+    # every reachable model state against the implementation
+    from .. import tlc
+    states, tinfo = tlc.run_collmerge(4 if tier == 'quick' else 6)
+    if states is None:
+        if 'skipped' in tinfo:
+            print(f"C09 note: TLC model part skipped ({tinfo['skipped']}); the direct enumeration still decides the property")
+        else:
+            print(f"HARNESS-ERROR C09: TLC did not verify the model: {tinfo.get('error', tinfo)}")
+            return 3
+    else:
+        parts.append({'label': 'tla-model-conformance', 'worker': model_worker, 'items': states, 'chunk': 60})
     return runner.enum_check(
         'C09', tier, parts, level='model_checking', rule=RULE, vacuity=vacuity,
         assumptions=['the fold uses the implementation\'s own `+`, so C09 is independent of C01-C06',
                      'the fake S3 implements only documented boto3 behaviour (paginated list_objects, Object.get()["Body"].read())',
                      'collections are built with allow_incomplete=True so that sequences without a roDelete are accepted'],
-        extra_cov={'sequences': len(seqs), 'pool': names})
+        extra_cov={'sequences': len(seqs), 'pool': names, 'tla_model': tinfo})
